@@ -55,18 +55,18 @@ func NewUntrustedMessageHandlers(ctx context.Context, trustedState *state.State,
 	memPool *state.MemPool, txChannel *TxChannel,
 	isRelevant IsRelevant, address string) map[string]MessageHandler {
 
-	blockHandler := NewBlockHandler(trustedState, nil)
 	txHandler := NewUntrustedTXHandler(untrustedState, txChannel)
 
+	// Blocks are only requested from the trusted node. Block messages from untrusted nodes are
+	// not handled so they can't fill the trusted node's block requests with unverified data.
 	return map[string]MessageHandler{
 		wire.CmdPing:     NewPingHandler(),
 		wire.CmdVersion:  NewUntrustedVersionHandler(untrustedState, address),
 		wire.CmdAddr:     NewAddressHandler(peers),
 		wire.CmdInv:      NewUntrustedInvHandler(untrustedState, tracker, memPool),
 		wire.CmdTx:       txHandler,
-		wire.CmdBlock:    blockHandler,
 		wire.CmdHeaders:  NewUntrustedHeadersHandler(untrustedState, peers, address, blockRepo),
 		wire.CmdReject:   NewRejectHandler(),
-		wire.CmdExtended: NewExtendedHandler(blockHandler, txHandler),
+		wire.CmdExtended: NewExtendedHandler(nil, txHandler),
 	}
 }
